@@ -80,6 +80,7 @@ func execM(w []string, line string, out func(string, string), st *hlib.Stats, wo
 	termTrees := map[string]map[string]string{} // word -> doc id -> tree
 	segsOf := map[string]int{}
 	nseg := 0
+	var vocab []string
 	res := hlib.Catch(func() string {
 		q := parseM(w[3])
 		r := openD(w[1], w[2], work)
@@ -88,7 +89,8 @@ func execM(w []string, line string, out func(string, string), st *hlib.Stats, wo
 		recMu.Unlock()
 		with = runSearch(r, q.build(), w[4], true)
 		without = runSearch(r, q.build(), w[4], false)
-		for _, word := range mVocab {
+		vocab = vocabOf(w[2])
+		for _, word := range vocab {
 			hs := runSearch(r, bluge.NewTermQuery(word).SetField(q.field), "all", true)
 			if len(hs) == 0 {
 				continue
@@ -152,7 +154,7 @@ func execM(w []string, line string, out func(string, string), st *hlib.Stats, wo
 		}
 		var b strings.Builder
 		fmt.Fprintf(&b, "%s %s %d %s", p, fb(x.score), nseg, x.expl)
-		for _, word := range mVocab {
+		for _, word := range vocab {
 			if t, ok := termTrees[word][x.id]; ok {
 				fmt.Fprintf(&b, "~%s/%d=%s", word, segsOf[word], t)
 			}
@@ -162,6 +164,39 @@ func execM(w []string, line string, out func(string, string), st *hlib.Stats, wo
 		st.Count("res:mhit")
 		out(op, b.String())
 	}
+}
+
+// vocabOf: the distinct words of a corpus (any field), sorted
+func vocabOf(corpus string) []string {
+	seen := map[string]bool{}
+	for _, batch := range strings.Split(corpus, "/") {
+		if batch == "@q" {
+			continue
+		}
+		for _, e := range strings.Split(batch, ";") {
+			if e == "" || e[0] == '!' {
+				continue
+			}
+			f := strings.Split(e, ":")
+			for _, v := range f[1:] {
+				if v == "-" {
+					continue
+				}
+				for _, w := range strings.FieldsFunc(v, func(r rune) bool { return r == ',' || r == '+' }) {
+					if i := strings.Index(w, "*"); i >= 0 {
+						w = w[:i]
+					}
+					seen[w] = true
+				}
+			}
+		}
+	}
+	out := make([]string, 0, len(seen))
+	for w := range seen {
+		out = append(out, w)
+	}
+	sort.Strings(out)
+	return out
 }
 
 // ------------------------------------------------------------------------------------------------ generation
@@ -251,6 +286,14 @@ func genMQuery(r *hlib.Rand, s string) string {
 }
 
 func genM(r *hlib.Rand, nCorpora int, emit func(string)) {
+	// fixed probe (every run): fuzzy queries whose term is no longer than the fuzziness — the per-term boost
+	// 1 - distance/min(len) of search_fuzzy.go is then 0 or negative (known finding fuzzy-term-boost-not-positive) — and
+	// two controls whose boosts are all positive
+	probeCfg := fmt.Sprintf("v=1,dir=mem,mg=0,b=%s,k1=%s", fb(0.75), fb(1.2))
+	for _, q := range []string{"F,body,a,2", "F,body,ab,2", "F,body,b,1", "F,body,bcd,1", "F,body,cd,1"} {
+		emit(fmt.Sprintf("msearch %s p0:bc:-;p1:cd,xx:-;p2:a:-;p3:a,bc,cd:-;p4:a*6,bc:- %s,%s all", probeCfg, q, fb(1)))
+	}
+	emit(fmt.Sprintf("msearch v=2,dir=fs,mg=0,b=%s,k1=%s p0:bc:-/p1:cd,xx:-/p2:a:-/@q F,body,a,2,%s all", fb(1), fb(2), fb(2)))
 	for ci := 0; ci < nCorpora; ci++ {
 		sim := dSims[ci%len(dSims)]
 		cfg := fmt.Sprintf("v=%d,dir=%s,mg=0,b=%s,k1=%s", 1+ci%2, []string{"mem", "fs"}[(ci/2)%2], fb(sim[0]), fb(sim[1]))
